@@ -493,12 +493,13 @@ def guard_verdict(fn, node, kind, ev):
             neg = neg + [v.test]
     defs = local_defs(fn)
     comment_vars = {k for k, vals in defs.items() if any(isinstance(x, ast.Attribute) and x.attr == 'comment' for x in vals)}
+
     def is_comment(e):
         return (isinstance(e, ast.Attribute) and e.attr == 'comment') or (isinstance(e, ast.Name) and e.id in comment_vars)
 
     derived = False     # the path tests another result's comment
     strong = False      # ... and tests that it IS the am/pm comment (== 'ampm' / .endswith('ampm'))
-    for c in pos + neg:
+    for c in pos:
         for s in ast.walk(c):
             if is_comment(s):
                 derived = True
